@@ -852,6 +852,8 @@ class Agg:
         self.stdlib_dropped = 0
         self.wall_runs = 0.0
         self.budget = 0
+        self.lib_threads = [0, 0, 0, 0]
+        self.thread_limit = 0
 
     def set_defs(self, defs):
         self.defs = defs
@@ -872,6 +874,10 @@ class Agg:
                 self.cls[r["cls"]] += 1
                 if r["clsbits"] & BITS["budget"]:
                     self.budget += 1
+                if r.get("thread_limit"):
+                    self.thread_limit += 1
+                for i, v in enumerate(r.get("lib_threads", [])[:4]):
+                    self.lib_threads[i] += v
                 self.strategy[r["strategy"] + ("" if not r["p"] else "(p=%g)" % r["p"]) + ("" if r["strategy"] != "pct" else "(d=%d)" % r["depth"])] += 1
                 self.ntasks[r["ntasks"]] += 1
                 self.events += r["events"]
@@ -991,11 +997,23 @@ def write_c18_evidence(ctx, tier, agg, wall, nviol, known_hits, variants, machin
                                 "preempted_inside": len(agg.inside), "overlapped_same_op": len(agg.overlap),
                                 "not_executed": empty[:60], "executed_never_preempted_inside": no_inside[:60]},
             "determinism_sample": {"runs_executed_twice": agg.twice_total, "identical": agg.twice_same},
+            "threads_created_by_the_code_under_test": {
+                "during_preparation": agg.lib_threads[0], "inside_simulated_interval": agg.lib_threads[1],
+                "taken_over_from_preparation": agg.lib_threads[2], "left_waiting_at_end_of_run": agg.lib_threads[3],
+                "runs_set_aside_thread_limit": agg.thread_limit,
+                "note": "0 everywhere on a tree whose library creates no threads; the support is exercised by "
+                        "--selftest runtime, mutants m14/m15/n04/n05 and seeded changes S18-19/20, N18-04"},
             "build_variants": dict(agg.variants),
             "components": {
                 "real_instrumented": ["smooth headers", "Eigen 3.4 headers", "libstdc++ header templates"],
                 "real_uninstrumented": ["libm", "libc string/mem (recovered by --wrap)", "libstdc++.so internals"],
-                "modelled": ["static-init guards", "pthread_mutex", "pthread_once", "clock_gettime", "scheduler (one runner)"],
+                "modelled": ["static-init guards", "pthread_mutex (recursive, try, timed)", "pthread_once", "pthread_rwlock",
+                             "pthread_cond (wait, timed wait, signal: schedule-dependent waiter, broadcast)",
+                             "futex wait/wake (std::atomic wait/notify, latch, semaphore, future)", "atomic_thread_fence",
+                             "pthread_create / join / detach from inside the code under test (threads adopted as tasks, "
+                             "also across the preparation run)", "sched_yield / nanosleep / usleep (hand-off)",
+                             "clock_gettime (simulated time = event count)", "scheduler (one runner)"],
+                "stubbed": ["sem_wait is not modelled: reaching it ends the run with class machinery (exit 2)"],
                 "wrapped": ["malloc/free/realloc/calloc/aligned allocation", "operator new/delete"],
             },
             "known_findings_hit": [k["what"] for k in known_hits],
@@ -1006,7 +1024,7 @@ def write_c18_evidence(ctx, tier, agg, wall, nviol, known_hits, variants, machin
             "race reports whose both accesses lie inside libstdc++'s std::atomic<std::shared_ptr> implementation are dropped (its relaxed unlock is not expressible in the C++ memory model; see DESIGN 10.3)",
             "sequentially consistent interleavings only (weak-memory reorderings are not simulated; races are found by happens-before on the memory orders written in the code)",
             "loads/stores inside uninstrumented shared libraries are invisible except mem* and the allocator",
-            "<= 16 tasks, <= 24 operations per task",
+            "<= 16 caller threads, <= 24 operations per caller, <= 250 simulated threads alive at once (callers + threads the library creates)",
         ],
     }
     os.makedirs(os.path.join(ctx.verif, "evidence"), exist_ok=True)
